@@ -705,6 +705,9 @@ Section Ops.
       | _ => Ret (ResIPs [] EOther)
       end).
 
+  (* an error answer is never reported to the caller as success *)
+  Definition nz (e : err) : err := match e with ENone => EOther | _ => e end.
+
   (* ipamClient.AssignIP *)
   Fixpoint assign_ip_loop (fuel : nat) (host h tag : N) (a : N) : prog result :=
     let c := block_of cf a in
@@ -714,7 +717,7 @@ Section Ops.
       let continue (bk : block * N) : prog result :=
         let '(b, brev) := bk in
         match blk_assign b a h tag (cf_strict cf) host with
-        | inr e => Ret (ResErr e)
+        | inr e => Ret (ResErr (nz e))
         | inl b' =>
             i <- inc_handle R h c 1 ;;
             match i with
@@ -726,7 +729,7 @@ Section Ops.
                 | inr EConflict =>
                     if cf_aip_leak cf then assign_ip_loop f host h tag a
                     else u_ <- dec_handle (cf_stale_cache cf) R h c 1 None ;; assign_ip_loop f host h tag a
-                | inr e => u_ <- dec_handle (cf_stale_cache cf) R h c 1 None ;; Ret (ResErr e)
+                | inr e => u_ <- dec_handle (cf_stale_cache cf) R h c 1 None ;; Ret (ResErr (nz e))
                 end
             end
         end in
@@ -736,16 +739,16 @@ Section Ops.
           pa <- get_pending_aff host c ;;
           match pa with
           | inr EConflict => assign_ip_loop f host h tag a
-          | inr e => Ret (ResErr e)
+          | inr e => Ret (ResErr (nz e))
           | inl (_, affrev) =>
               cb <- claim_affine_block host c affrev ;;
               match cb with
               | inr EConflict => assign_ip_loop f host h tag a
-              | inr e => Ret (ResErr e)
+              | inr e => Ret (ResErr (nz e))
               | inl bk => continue bk
               end
           end
-      | inr e => Ret (ResErr e)
+      | inr e => Ret (ResErr (nz e))
       | inl bk => continue bk
       end
     end.
